@@ -327,7 +327,7 @@ class ActStep(Harness):
 
     name = "act-step"
     engine = "E1-crosshair"
-    properties = ("C02",)
+    properties = ("C01", "C02", "C03")
     rule = "one path = an assignment with <=3 preparation entries, each local or on one of two other hosts, in any order; non-trivial = >=2 entries of different kind"
     assumptions = ["the bridge is a recorder"]
     outside = []
